@@ -1,3 +1,3 @@
 import MpfVerif.DriverLoop
-import MpfVerif.Model.Framing2
-def main : IO UInt32 := MpfVerif.runDriver MpfVerif.Framing2.driverStep {}
+import MpfVerif.Model.Framing3
+def main : IO UInt32 := MpfVerif.runDriver MpfVerif.Framing3.driverStep {}
